@@ -368,7 +368,7 @@ ADDENDA = {
     "C03": "A quarter of the loads are preceded by a load of the same text "
            "through a differently configured parser (Decimal/Fraction reals, "
            "other quantity class, caller's containers, another dialect). "
-           "Text generator: exponents beyond the float range, zone offsets below one hour, words whose digits are not ASCII digits, words made of characters only Python takes for white space, keyword look-alikes as values and names; every fourth worker keeps one parser object per reader and feeds it truncated texts.",
+           "Text generator: exponents beyond the float range, zone offsets below one hour, words whose digits are not ASCII digits, words made of characters only Python takes for white space, keyword look-alikes as values and names; every fourth worker keeps one parser object per reader and feeds it truncated texts. Hand-written string contents with continuation marks, blanks and line breaks at the ends of the string (string_edges).",
     "C04": "Which dialect a worker uses first differs from shard to shard. "
            "Also documents with missing values under the two permissive readers.",
     "C05": "For the ISIS reader also blocks begun with another dialect's "
@@ -380,7 +380,7 @@ ADDENDA = {
            "keep one parser object per configuration for all their loads. "
            "Sources keyword look-alikes and lone surrogates.",
     "C07": "A third source of t0 are texts written by the four encoders "
-           "(random options) from generated modules (cross-dialect chains).",
+           "(random options) from generated modules (cross-dialect chains). A fourth source slides a word that only Python takes for white space (or a dash) through the wrap points of a long string.",
     "C08": "The default loader is called five ways: fresh OmniParser, "
            "pvl.loads(text), one long-lived parser per worker, and with the "
            "caller's own container classes (derived from the defaults / built "
@@ -403,16 +403,16 @@ ADDENDA = {
            "Labels handed over as bytes with data behind END and a disallowed multi-byte character at a read-block boundary; the character behind a dash continuation (default grammar, three routes).",
     "C16": "Also two user-subclass parser configurations and a family of "
            "modules around refusals raised part-way through a nested value. "
-           "One parser object per configuration fed 700 texts, six of seven failing inside a nested value (soak); every module an instance handed back is looked at again after every later call; wrap-hazard modules.",
+           "One parser object per configuration fed 700 texts, six of seven failing inside a nested value (soak); every module an instance handed back is looked at again after every later call; wrap-hazard modules. Texts with dash continuations; modules with strings one or another encoder has no notation for.",
     "C17": "Also six encoders built with a grammar and a decoder of different "
            "dialects (writer law only), and a sample of the strings "
            "re-observed in a pristine process. "
-           "Parser-level name checks (a number / date / time where only a name can stand must not load, also between quotes in front of a second '='); the decoder-only Token form.",
+           "Parser-level name checks (a number / date / time where only a name can stand must not load, also between quotes in front of a second '='); the decoder-only Token form. The based-integer class is anchored to an independent reader of that notation, the date/time class also to what the notation excludes.",
     "C18": "Substitutes are handed over through every loader entry point "
            "(str, bytes, streams, path, file: URL; with and without data "
            "behind END); a third of the cases build the plain and the "
            "customised parser around one grammar object, in either order. "
-           "A quantity class that refuses some units: the load may fail, it may not return.",
+           "A quantity class that refuses some units: the load may fail, it may not return. One class handed over for several container roles.",
     "C19": "Also the same optional loader arguments on both sides (15 "
            "grammar=/decoder= configurations, fresh objects per side, "
            "interleaved in one process). "
